@@ -4,7 +4,7 @@
    also what is extracted and run against the real C++. *)
 From Coq Require Import ZArith List Bool.
 From MomoCommon Require Import GenPrelude.
-From C17 Require Gen_Leaves Leaves_Proofs SorterSearch SorterSort Search_Proofs Find_Proofs IsSorted_Proofs Sort_Proofs Radix_Proofs CodeGetter Checker Instance SelPrims Gen_SelSort SelSort_Proofs SelSort_Refine Gen_Radix Radix_Gen_Proofs Gen_RadixCount Radix_Count_Refine Gen_RadixCycle Radix_Cycle_Refine Gen_HsGuards HsGuards_Proofs Gen_FindHash FindHash_Refine Gen_Group Group_Refine.
+From C17 Require Gen_Leaves Leaves_Proofs SorterSearch SorterSort Search_Proofs Find_Proofs IsSorted_Proofs Sort_Proofs Radix_Proofs CodeGetter Checker Instance SelPrims Gen_SelSort SelSort_Proofs SelSort_Refine Gen_Radix Radix_Gen_Proofs Gen_RadixCount Radix_Count_Refine Gen_RadixCycle Radix_Cycle_Refine Gen_HsGuards HsGuards_Proofs Gen_FindHash FindHash_Refine Gen_Group Group_Refine Gen_Searches Searches_Refine Gen_GroupLambda GroupLambda_Proofs.
 Import ListNotations.
 Local Open Scope Z_scope.
 
@@ -362,3 +362,38 @@ Theorem C17_gen_group_makes_equal_contiguous : forall sw, (forall l i j, sw l i 
     Sort_Proofs.relR q (q + cnt) l l' /\ Sort_Proofs.contigL eqf l' q (q + cnt).
 Proof. exact Group_Refine.gen_pvGroup_spec. Qed.
 Print Assumptions C17_gen_group_makes_equal_contiguous.
+
+(* ---- the GENERATED pvBinarySearch / pvExponentialSearch (Gen_Searches.v; comparer on relative offsets, returns = exit codes) ---- *)
+Theorem C17_gen_binary_search_refines_model : forall cmpO c, (forall i v, cmpO i = Ok v -> v = c i) ->
+  forall begin f l r res, SorterSearch.bs_loop f cmpO l r = Ok res ->
+    exists code st, Gen_Searches.pvBinarySearch_loop0 c f begin l r = Ok (code, st) /\ Searches_Refine.bs_result code st = res.
+Proof. exact Searches_Refine.gen_bs_simulates. Qed.
+Print Assumptions C17_gen_binary_search_refines_model.
+
+Theorem C17_gen_exponential_search_refines_model : forall cmpO c, (forall i v, cmpO i = Ok v -> v = c i) ->
+  forall begin cnt, cnt < 2 ^ 64 -> forall f lft i res, 0 <= i -> SorterSearch.es_loop f cmpO cnt lft i = Ok res ->
+    exists code st, Gen_Searches.pvExponentialSearch_loop0 c f begin cnt i lft = Ok (code, st) /\
+      Searches_Refine.es_continuation cmpO cnt code st = Ok res.
+Proof. exact Searches_Refine.gen_es_simulates. Qed.
+Print Assumptions C17_gen_exponential_search_refines_model.
+
+(* the generated binary search, for every comparer defined on [0,n): terminates (fuel F+1 whenever n < 2^F) and its exit
+   denotes a result satisfying the search specification *)
+Theorem C17_gen_binary_search_spec : forall cmpO c n begin (F : nat), Search_Proofs.cmp_ok cmpO c n -> 0 <= n < 2 ^ 62 ->
+  n < 2 ^ Z.of_nat F ->
+  exists code st, Gen_Searches.pvBinarySearch_loop0 c (S F) begin 0 n = Ok (code, st) /\
+    Search_Proofs.sres c n (fst (Searches_Refine.bs_result code st)) (snd (Searches_Refine.bs_result code st)).
+Proof. exact Searches_Refine.gen_binary_search_spec. Qed.
+Print Assumptions C17_gen_binary_search_spec.
+
+(* ---- the GENERATED condition of HashSorter::pvSort's group callback ---- *)
+Theorem C17_gen_group_lambda_refines_model : forall sw eqf l q c,
+  SorterSort.hs_group sw eqf l q c =
+  if Gen_GroupLambda.group_lambda_calls_pvGroup c then SorterSort.pvGroup sw eqf l q c else Ok l.
+Proof. exact GroupLambda_Proofs.gen_group_lambda_refines_model. Qed.
+Print Assumptions C17_gen_group_lambda_refines_model.
+
+Theorem C17_gen_group_lambda_skips_only_trivial_runs : forall eqf l q c,
+  Gen_GroupLambda.group_lambda_calls_pvGroup c = false -> Sort_Proofs.contigL eqf l q (q + c).
+Proof. exact GroupLambda_Proofs.gen_group_lambda_skips_only_trivial_runs. Qed.
+Print Assumptions C17_gen_group_lambda_skips_only_trivial_runs.
